@@ -94,6 +94,15 @@ impl ReplayEvent {
     }
 }
 
+/// The delay to the next recorded event also includes time during which no ticks happened.
+pub fn add_delay_to_record_state(record_state: &mut Option<DynamicMacroRecordState>, ms: u128) {
+    if let Some(state) = record_state {
+        state.current_delay = state
+            .current_delay
+            .saturating_add(ms.min(u128::from(u16::MAX)) as u16);
+    }
+}
+
 pub fn tick_record_state(record_state: &mut Option<DynamicMacroRecordState>) {
     if let Some(state) = record_state {
         state.current_delay = state.current_delay.saturating_add(1);
